@@ -348,6 +348,7 @@ struct Exec
   int nextId = 1;
   bool infra = false;
   bool v6 = false;
+  int spell = 0; // how connect / connectViaListener are given the peers' hosts: 0 canonical text, 1 short numeric forms, 2 a name
   // parking the I/O thread inside a callback
   std::atomic<SessionId> parkSid{0};
   std::atomic<bool> parked{false}, gateOpen{true};
@@ -444,7 +445,12 @@ struct Exec
       if (!missing || !wait) return;
       if (vf::nowSec() - t0 > 5.0)
       {
-        infraEv("datagram accepted by the kernel did not reach the peer socket within 5 s");
+        // Loopback delivers a datagram inside the send call; the peers' receive buffers are far from full here (bursts are
+        // accounted for separately).  A send the kernel reported as successful that produces nothing at the peer means the
+        // engine's call did not transmit a datagram of its own (e.g. corked with MSG_MORE): not the harness's fault - the
+        // check re-runs the case and reports it when it repeats.
+        infra = true;
+        g_trace.add(vf::Ev("Lost").str("why", "a send call the kernel reported as successful produced no datagram at the peer socket within 5 s"));
         return;
       }
       usleep(200);
@@ -516,6 +522,10 @@ struct Exec
       ::getsockname(g_peers[i].fd, (sockaddr *)&a, &sl);
       toN((sockaddr *)&a, g_peers[i].addr);
       g_peers[i].engineHost = v6 ? std::string("::ffff:") + v4host[i] : std::string(v4host[i]);
+      // other spellings of the same addresses (the session must still be found under the address datagrams arrive from)
+      static const char *shortForm[2] = {"127.1", "127.2"};
+      if (!v6 && spell == 1) g_peers[i].engineHost = shortForm[i];
+      if (!v6 && spell == 2) g_peers[i].engineHost = i == 0 ? "localhost" : shortForm[i];
     }
     if (v6)
     {
@@ -593,6 +603,7 @@ struct Exec
       if (kv[0] == "batch") cfg.batching.enabled = v != 0;
       if (kv[0] == "wq") cfg.maxWriteQueue = (std::size_t)v;
       if (kv[0] == "v6") v6 = v != 0;
+      if (kv[0] == "sp") spell = (int)v;
     }
     if (!setupPeers()) return v6 ? "{\"e\":\"NoIPv6\"}\n" : "{\"e\":\"Infra\",\"why\":\"peer bind\"}\n";
     eng = std::make_unique<UdpEngine>(cfg);
@@ -773,7 +784,7 @@ struct Exec
         callSids.push_back(sid);
         sockOf[sid] = op == "CONNECT" ? "C" + std::to_string(sid) : "L" + w[1];
         unlock();
-        g_trace.add(vf::Ev("ConnCall").i("sid", (long)sid).str("p", g_peers[p].name));
+        g_trace.add(vf::Ev("ConnCall").i("sid", (long)sid).str("p", g_peers[p].name).i("lid", op == "VIA" ? atoi(w[1].c_str()) : 0));
         unlockCall();
         barrier();
         if (op == "CONNECT" && !isClosed(sid))
